@@ -138,6 +138,7 @@ package alloctxn
 //@   allocates buf.Buf
 //@   modifies buf.Buf.dirty, []uint8@buf.Buf.Data, zeroed
 //@   ghostexit zeroed = store(zeroed, blkno, true)
+//@   ensureslocal [Z1-published] buf.dirty @C12
 //@   ensureslocal [Z1-zeroed] buf.Addr.Blkno == blkno && len(buf.Data) == 4096 && (forall j uint64 :: j < 4096 ==> buf.Data[j] == 0) @C12
 //@   loop 0 invariant len(buf.Data) == 4096 && uint64(rangeindex+1) <= 4096 && (forall j uint64 :: j < uint64(rangeindex+1) ==> buf.Data[j] == 0)
 
